@@ -367,6 +367,26 @@ LEDGER_CFG = ("SPECIFICATION Spec\nCONSTANTS Branches = {{0, 1}}\nMaxIndex = {mx
               "PROPERTY AppendOnly\nPROPERTY CursorMonotone\nCHECK_DEADLOCK FALSE\n")
 
 
+def wallet_trace(lines: list[dict[str, Any]]) -> tuple[Any, list[int]]:
+    """Validate a recorded history of wallet calls against spec/WalletTrace.tla: (TLC result, the lines the specification does not explain)."""
+    import json
+    import pathlib
+    import tempfile
+
+    with tempfile.TemporaryDirectory(prefix="mbv-wal-") as d:
+        f = pathlib.Path(d) / "trace.ndjson"
+        f.write_text("".join(json.dumps(e) + "\n" for e in lines))
+        cfg = "SPECIFICATION TSpec\nINVARIANT Consumed\nINVARIANT Report\nCHECK_DEADLOCK TRUE\n"
+        tr = tlc.run("WalletTrace", cfg_text=cfg, workers=1, env={"TRACE_FILE": str(f)}, heap="4g")
+    if tr.violations:
+        v = tr.violations[0]
+        raise tlc.TLCFailure(f"WalletTrace: the trace was not consumed ({v.kind}): {v.text[-800:]}")
+    for val in tr.printed_values():
+        if isinstance(val, list) and val and val[0] == "REJECTED":
+            return tr, sorted(val[1])
+    raise tlc.TLCFailure("WalletTrace: no final report")
+
+
 def wallet_ledger(run: Run, rnd: random.Random, thorough: bool) -> None:
     """M: the ledger of a ranged wallet (spec/WalletCalls.tla) model-checked over every history of hand-outs on two branches; V: random histories of calls on real
     wallets of the three kinds (address, next_address, len, addresses, `in`, address_info, position_of) validated line by line against it (spec/WalletTrace.tla)."""
@@ -428,25 +448,13 @@ def wallet_ledger(run: Run, rnd: random.Random, thorough: bool) -> None:
                     run.violation(f"wallet|ledger|{kind}|{op}|raised|{type(e).__name__}", f"{kind}.{op}({b}, {i}) raised {type(e).__name__}: {e} in a history of valid calls", {"kind": kind, "op": op})
                     continue
                 where.append(f"{kind} history {h} step {step}: {op}")
-    with tempfile.TemporaryDirectory(prefix="mbv-wal-") as d:
-        f = pathlib.Path(d) / "trace.ndjson"
-        f.write_text("".join(json.dumps(e) + "\n" for e in lines))
-        cfg = "SPECIFICATION TSpec\nINVARIANT Consumed\nINVARIANT Report\nCHECK_DEADLOCK TRUE\n"
-        tr = tlc.run("WalletTrace", cfg_text=cfg, workers=1, env={"TRACE_FILE": str(f)}, heap="4g")
+    tr, rejected = wallet_trace(lines)
     run.tlc(tr, "V WalletTrace")
-    if tr.violations:
-        v = tr.violations[0]
-        raise tlc.TLCFailure(f"WalletTrace: the trace was not consumed ({v.kind}): {v.text[-800:]}")
-    rejected = None
-    for val in tr.printed_values():
-        if isinstance(val, list) and val and val[0] == "REJECTED":
-            rejected = sorted(val[1])
-    if rejected is None:
-        raise tlc.TLCFailure("WalletTrace: no final report")
     for ln in rejected:
         e = lines[ln - 1]
+        start = max(k for k in range(ln) if lines[k]["ev"] == "open")
         run.violation(f"wallet|ledger|{where[ln - 1].split(' ')[0]}|{e['ev']}", f"{where[ln - 1]}: the wallet answered {e}; the ledger specification does not explain it",
-                      {"machine": "WalletTrace", "line": ln, "history": lines[max(0, ln - 25):ln]})
+                      {"machine": "WalletTrace", "line": ln - start, "history": lines[start:ln]})
     run.section("wallet_ledger", {"lines": len(lines), "histories": sum(1 for e in lines if e["ev"] == "open"), "by_event": {k: sum(1 for e in lines if e["ev"] == k) for k in ("address", "next", "observe", "contains", "position_of")}})
     run.count(evaluations=len(lines), validated=len(lines), nontrivial=sum(1 for e in lines if e["ev"] in ("next", "observe")))
 
@@ -494,6 +502,12 @@ def replay(path: str) -> int:
     import json
 
     body = json.load(open(path))
+    if body.get("machine") == "WalletTrace":
+        _, rejected = wallet_trace(body["history"])
+        if rejected:
+            print(f"VIOLATION property=C14 replay={path}  # the recorded wallet history is not a behaviour of the ledger specification at line(s) {rejected}")
+            return 1
+        return 0
     e = body.get("event")
     if not e:
         return 0
